@@ -211,10 +211,16 @@ def check(idx: Index, rep: Report, tier: str) -> str:
     # which operations are scanned for written callee-saved registers: only pure register getters may be left out
     from ..setbuild import describe as _describe3
 
-    dsc3 = _describe3(f.node, cfg3, push_loops[0].iter, cfg3.node_of(push_loops[0]))
-    scans = [a_ for a_ in dsc3.adds if a_.iters and re.fullmatch(r"\w+\.walk\(\)", a_.iters[0][1])]
-    if dsc3.unknown or len(scans) != 1:
-        raise AnalysisError(f"{f.fq}: scan of the function's operations for written registers not found ({dsc3.unknown[:1]})")
+    scans, dsc3 = [], None
+    cand_exprs = [push_loops[0].iter] + [ast.Name(id=nm_, ctx=ast.Load()) for nm_ in sorted({t_.id for st_ in walk_local(f.node) if isinstance(st_, (ast.Assign, ast.AnnAssign)) for t_ in (st_.targets if isinstance(st_, ast.Assign) else [st_.target]) if isinstance(t_, ast.Name)})]
+    for ce_ in cand_exprs:
+        d_ = _describe3(f.node, cfg3, ce_, cfg3.node_of(push_loops[0]))
+        sc_ = [a_ for a_ in d_.adds if a_.iters and re.fullmatch(r"\w+\.walk\(\)", a_.iters[0][1])]
+        if sc_ and not d_.unknown:
+            scans, dsc3 = sc_, d_
+            break
+    if len(scans) != 1:
+        raise AnalysisError(f"{f.fq}: scan of the function's operations for written registers not found")
     opv = scans[0].iters[0][0]
     GETTERS = {"GetRegisterOp", "GetAVXRegisterOp", "GetMaskRegisterOp"}
     op_facts = [(t_, p_) for t_, p_ in scans[0].facts if re.search(rf"\b{re.escape(opv)}\b", t_) and not re.search(rf"\b{re.escape(opv)}\.results\b", t_)]
